@@ -880,6 +880,7 @@ impl Formula {
                             .find(|candidate| {
                                 !term_variables.contains(candidate)
                                     && !formula_variables.contains(candidate)
+                                    && *candidate != var
                             })
                             .unwrap();
 
